@@ -22,6 +22,9 @@ fn num_leaves() -> Vec<Expr> {
     vec![
         Expr::Num("0".into()), Expr::Num("1".into()), Expr::Num("2".into()), Expr::Num("3".into()),
         Expr::Num(".5".into()), Expr::Num("10".into()), var("A"), var("U"),
+        // a non-zero number far below machine epsilon, and a rounding residue: still "non-zero" and a legal divisor
+        Expr::Num(".0000000000000000001".into()),
+        Expr::Paren(Box::new(bin(Bin::Sub, bin(Bin::Add, Expr::Num(".1".into()), Expr::Num(".2".into())), Expr::Num(".3".into())))),
     ]
 }
 fn str_leaves() -> Vec<Expr> {
@@ -65,6 +68,7 @@ fn reduced_operands(n: usize) -> Vec<Expr> {
         Expr::Un(Un::Not, Box::new(Expr::Num("3".into()))),
         Expr::Int(Box::new(Expr::Num(".5".into()))),
         var("U$"),
+        Expr::Num(".0000000000000000001".into()),
     ];
     all.into_iter().take(n).collect()
 }
@@ -86,7 +90,7 @@ fn build_shape(shape: usize, ops: &[Bin], xs: &[Expr]) -> Expr {
     }
 }
 
-const R2: usize = 14;
+const R2: usize = 15;
 const R3: usize = 10;
 
 fn sizes(tier: Tier) -> (u64, u64, u64) {
@@ -331,7 +335,7 @@ fn finalize(tier: Tier, rep: &mut Report) -> Finalize {
     Finalize {
         rule: format!(
             "A case is one syntax tree, evaluated by the real interpreter twice (`PRINT` of its minimal-parentheses and of its fully parenthesised text) and folded once by the model. \
-             ops1: every binary operator over every pair of 68 decorated operands (13 leaves x unary -, NOT, +, ABS, INT); ops2: both tree shapes x 13^2 operators x {}^3 operands; \
+             ops1: every binary operator over every pair of 80 decorated operands (15 leaves x unary -, NOT, +, ABS, INT); ops2: both tree shapes x 13^2 operators x {}^3 operands; \
              ops3 (thorough): all five shapes x 13^3 operators x {}^4 operands; random: trees up to depth 5 with array cells, nested calls and explicit parentheses. \
              Non-trivial: the tree has at least two binary operators (a precedence or associativity witness). Distinct by hash of the minimal text (lower bound: capped per worker).",
             R2, R3),
